@@ -522,13 +522,14 @@ func (h *Hashgraph) updateAncestorFirstDescendant(event *Event) error {
 				if err := h.Store.SetEvent(a); err != nil {
 					return err
 				}
-				// Stopping condition. We don't want to go all the way down to
-				// the bottom of the hashgraph (which could happen if the event
-				// is from a new participant). So we stop at the ancestors that
-				// are witnesses.
-				if w, err := h.witness(ah); err == nil && w {
-					break
-				}
+				// Keep walking down the self-parent chain until an ancestor
+				// that already has a first descendant from this creator (all
+				// its self-ancestors have one too). Stopping earlier, e.g. at
+				// the first witness, makes the recorded first descendants, and
+				// with them strongly-see, rounds and fame, depend on which
+				// events happened to be inserted (and processed) before this
+				// one, so that nodes receiving the same events in different
+				// orders disagree.
 				ah = a.SelfParent()
 			} else {
 				break
